@@ -5,6 +5,7 @@
 set -u
 WT=$1; M=$2; DEMO_DIR=$3
 export GOFLAGS=-mod=mod GOPROXY=off
+FLAGS=$(python3 -c "import json;print(json.load(open('$M/meta.json')).get('demo_flags','') or '')" 2>/dev/null)
 cd "$WT" || exit 2
 git checkout -q -- . ; git clean -fdq -e out
 status=0
@@ -12,9 +13,9 @@ git apply "$M/patch.diff" || { echo "PATCH-DOES-NOT-APPLY"; exit 1; }
 go build ./... || { echo "BUILD-FAILS"; status=1; }
 if go test -mod=mod -vet=off -count=1 ./... > /tmp/confirm_suite.log 2>&1; then echo "suite-with-change: PASS"; else echo "suite-with-change: FAIL"; grep -v "^ok\|no test files" /tmp/confirm_suite.log | head -20; status=1; fi
 for f in "$M"/*_test.go; do cp "$f" "$DEMO_DIR/zz_verif_$(basename $f)"; done
-if go test -mod=mod -vet=off -count=1 "./$DEMO_DIR/" -run 'Demo' > /tmp/confirm_demo1.log 2>&1; then echo "demo-with-change: PASS (unexpected)"; status=1; else echo "demo-with-change: FAIL (expected)"; grep -m3 -- "--- FAIL\|panic:" /tmp/confirm_demo1.log; fi
+if go test -mod=mod -vet=off -count=1 $FLAGS "./$DEMO_DIR/" -run 'Demo' > /tmp/confirm_demo1.log 2>&1; then echo "demo-with-change: PASS (unexpected)"; status=1; else echo "demo-with-change: FAIL (expected)"; grep -m3 -- "--- FAIL\|panic:\|DATA RACE\|fatal error" /tmp/confirm_demo1.log; fi
 git checkout -q -- .
-if go test -mod=mod -vet=off -count=1 "./$DEMO_DIR/" -run 'Demo' > /tmp/confirm_demo2.log 2>&1; then echo "demo-without-change: PASS (expected)"; else echo "demo-without-change: FAIL (unexpected)"; tail -5 /tmp/confirm_demo2.log; status=1; fi
+if go test -mod=mod -vet=off -count=1 $FLAGS "./$DEMO_DIR/" -run 'Demo' > /tmp/confirm_demo2.log 2>&1; then echo "demo-without-change: PASS (expected)"; else echo "demo-without-change: FAIL (unexpected)"; tail -5 /tmp/confirm_demo2.log; status=1; fi
 rm -f "$DEMO_DIR"/zz_verif_*_test.go
 git checkout -q -- . ; git clean -fdq -e out
 exit $status
